@@ -73,7 +73,8 @@ Family(c) ==
 ----------------------------------------------------------------------------
 (* invariants: one line per claim *)
 ImplIsSpec      == \A con \in Family(col) : Demanded(con, col) => (ImplSat(con, col) = SpecSat(con, col))
-MissingFails    == \A con \in Family(col) : ~con.isnull => (SpecSat(con, Missing) = FALSE /\ ImplSat(con, Missing) = FALSE)
+\* (null-valued constraints included: the field's absence is looked at first, for every kind)
+MissingFails    == \A con \in Family(col) : (SpecSat(con, Missing) = FALSE /\ ImplSat(con, Missing) = FALSE)
 NullValuedPasses == \A k \in {"type", "min", "max", "sign", "max_nulls", "rex"} : SpecSat(MkNull(k), col)
 FlagsImplIsSpec == \A con \in Family(col) :
                       (FlagsDemanded(con, col) /\ ~con.isnull /\ ~SpecSat(con, col))
